@@ -79,8 +79,8 @@ func (a *API) enter(ctx context.Context, tok int) *Tok {
 	}
 	t.mu.Lock()
 	gate := t.Gate
-	if t.Kind == "rev" {
-		gate = nil // for reverse-calling ops the gate holds the client-side handler
+	if t.Kind == "rev" || t.Kind == "revsub" {
+		gate = nil // for reverse-calling ops the gate holds the client-side handler / producer
 	}
 	t.mu.Unlock()
 	if gate != nil {
@@ -445,6 +445,7 @@ func (h *RevHandler) SubR(ctx context.Context, tok int) (<-chan int, error) {
 				st.mu.Lock()
 				st.Produced = append(st.Produced, SubVal(tok, k))
 				st.mu.Unlock()
+				simrt.Rec("rproduced", strconv.Itoa(tok), "", int64(SubVal(tok, k)))
 			case <-h.e.Done:
 				return
 			}
